@@ -1,5 +1,6 @@
 # specs.studio -- C19: PlaybackStudio and find_matching_recording_ids under contract.
 import ast
+import os
 import z3
 
 from pyvc.vals import Val, NONE, S, B, I, K, LAT, TYP, sub, SeqV, Str, AVV, AVB, BASE, fresh, truthy, is_exc, St, Unsupported
@@ -10,7 +11,7 @@ from pyvc.run import Obl
 from pyvc import lib
 from pyvc.calls import Role
 
-REPO_ROOT = '/repo'
+REPO_ROOT = os.environ.get('PYVC_REPO', '/repo')
 ST = 'playback.studio.studio:PlaybackStudio.'
 CATF = z3.Function('category_of_id', Val, Val)                      # interface contract of TapeCassette.extract_recording_category
 ASQ = z3.ArraySort(Val, SeqV)
@@ -62,7 +63,7 @@ class StudioSpec(object):
 
 
 def mk(qual, params):
-    repo = Repo(REPO_ROOT); spec = StudioSpec(); ex = lib.install(Exec(repo, spec))
+    repo = Repo(); spec = StudioSpec(); ex = lib.install(Exec(repo, spec))
     m, c, node, info = repo.find(qual)
     st = St(); selfv = st.sym_obj('self', 'PlaybackStudio'); spec.selfv = selfv
     rec = st.sym_obj('recorder', 'TapeRecorder'); cas = st.sym_obj('cassette', 'TapeCassette', False); st.wr(selfv, 'tape_recorder', rec); st.wr(rec, 'tape_cassette', cas)
@@ -248,7 +249,7 @@ def play(mode='explicit', props=None):
 
 
 def find_matching(props=None):
-    repo = Repo(REPO_ROOT); spec = StudioSpec(); ex = lib.install(Exec(repo, spec))
+    repo = Repo(); spec = StudioSpec(); ex = lib.install(Exec(repo, spec))
     m, c, node, info = repo.find('playback.studio.recordings_lookup:find_matching_recording_ids')
     st = St(); rec = st.sym_obj('recorder', 'TapeRecorder'); cas = st.sym_obj('cassette', 'TapeCassette', False); st.wr(rec, 'tape_cassette', cas)
     lp = st.sym_obj('lookup', 'RecordingLookupProperties'); cat = fresh('category')
